@@ -15,7 +15,9 @@ cycles of abstract rules, match/common mixes):
    matched alternative, else concatenated text); for every object o and every
    rule R of the grammar `textx_isinstance(o, R)` must terminate and be True
    exactly when R is o's rule, OBJECT, or o's rule is reachable from R through
-   abstract-rule alternatives.
+   abstract-rule alternatives — once over textX's generated classes and once
+   over Python user classes for all common and abstract rules (built in worker
+   processes that have built other such meta-models before).
 """
 import sys
 import time
@@ -113,6 +115,27 @@ def static_check(g):
     return out
 
 
+def user_class_mm(g):
+    """meta-model of g over Python user classes for every common and every
+    abstract rule (built in a process that has built such meta-models before:
+    per-class inheritance data must not leak between classes or meta-models)"""
+    from textx import metamodel_from_str
+    rel, kinds = ref_instance_of(g['rules'])
+
+    def init(self, parent=None, **kw):
+        if parent is not None:
+            self.parent = parent
+        for k, v in kw.items():
+            setattr(self, k, v)
+    classes = [type(nm, (object,), {'__init__': init}) for nm, k in kinds.items() if k in ('common', 'abstract')]
+    if not classes:
+        return None
+    cfg = {k: v for k, v in g['cfg'].items() if k in pegcheck.MM_KEYS}
+    mm = metamodel_from_str(pegcheck.render_grammar(g['rules']), classes=classes, **cfg)
+    mm._verif_user_classes = {c.__name__: c for c in classes}
+    return mm
+
+
 def isinstance_check(g, mm, model):
     """textx_isinstance on every object of a loaded witness"""
     from textx import get_children, textx_isinstance
@@ -125,6 +148,10 @@ def isinstance_check(g, mm, model):
         if cn in seen_cls:
             continue
         seen_cls.add(cn)
+        uc = getattr(mm, '_verif_user_classes', None)
+        if uc is not None and cn in uc and type(o) is not uc[cn]:
+            out.append({'grammar': g['name'], 'kind': 'isinstance', 'cls': cn, 'rule': cn,
+                        'got': 'object of %r' % type(o), 'expected': 'an instance of the user class'})
         for r in kinds:
             want = (cn, r) in rel
             old = sys.getrecursionlimit()
@@ -158,14 +185,19 @@ def obligation(item):
             inp = SymInput.symbolic(n)
             f = Formulas(g, mm, inp, want_patched=False, want_ref=False)
             texts, exhausted, z2 = pegcheck.enumerate_classes(inp, f.acc_i, min(wlimit, 60), timeout_ms)
+            mm_uc = user_class_mm(g)
             for t in texts:
-                kind, val = pegcheck.real_load(mm, t)
-                if kind == 'ok':
-                    res['isinstance_checked'] += 1
-                    for b in isinstance_check(g, mm, val):
-                        b['text'] = t
-                        if len(res['isinstance']) < 4:
-                            res['isinstance'].append(b)
+                for m_, uc in ((mm, False), (mm_uc, True)):
+                    if m_ is None:
+                        continue
+                    kind, val = pegcheck.real_load(m_, t)
+                    if kind == 'ok':
+                        res['isinstance_checked'] += 1
+                        for b in isinstance_check(g, m_, val):
+                            b['text'] = t
+                            b['user_classes'] = uc
+                            if len(res['isinstance']) < 4:
+                                res['isinstance'].append(b)
         except Unsupported:
             pass
     return res
@@ -250,6 +282,9 @@ def replay(data):
         live = mm[data['rule']]._tx_type
         return live != data['reference'], {'live': live}
     if data.get('kind') == 'isinstance':
+        if data.get('user_classes'):
+            user_class_mm(corpus.KINDS[0])        # a meta-model over user classes was built before
+            mm = user_class_mm(g)
         kind, val = pegcheck.real_load(mm, data['text'])
         bad = [b for b in isinstance_check(g, mm, val) if b['cls'] == data['cls'] and b['rule'] == data['rule']]
         return bool(bad), bad
